@@ -2,7 +2,7 @@
 import os
 
 COMMON_TRUST = [
-    "cbmc/goto-cc/goto-instrument 6.11.0 (C front end, DFCC contract instrumentation, symbolic execution) and the SAT/SMT back ends (kissat from the Kani bundle for proved/step groups, minisat2 built in for bounded groups, cvc5 1.0) are sound",
+    "cbmc/goto-cc/goto-instrument 6.11.0 (C front end, DFCC contract instrumentation, symbolic execution) and the SAT/SMT back ends (minisat2 built in; kissat from the Kani bundle where a group names it; cvc5 1.0) are sound",
     "CBMC's C semantics (LP64, little endian, IEEE-754 binary32 round-to-nearest) match gcc on x86-64 for this code",
     "CBMC's malloc/realloc/free models stand for glibc (fresh objects; realloc(p,0) frees; object size < 2^55)",
     "spec TUs include /repo/src/<module>.c textually; loop-contract clauses are inserted between loop head and body by vflib/prep.py (reversibility checked every run)",
@@ -46,7 +46,7 @@ def evidence(prop, meta, tier, seed, results, violations, known_hits, wall, tool
             'group': g.gid, 'kind': {'P': 'proved (unbounded)', 'S': 'step contract (unbounded in the surrounding structure)', 'B': 'bounded'}[g.kind],
             'what': g.what, 'function_under_contract': g.enforce, 'callees_replaced_by_contract': g.replace,
             'status': r.status, 'reason': r.reason, 'obligations': len(r.obligations), 'discharged': ok,
-            'back_end': ({'sat': 'kissat via cbmc --external-sat-solver' if g.kind != 'B' else 'cbmc built-in SAT (minisat2)', 'kissat': 'kissat via cbmc --external-sat-solver', 'cvc5': 'cvc5 via cbmc --cvc5', 'z3': 'z3'}[g.solver]) + ((' | refuter: ' + g.refuter) if getattr(g, 'refuter', None) else ''),
+            'back_end': ({'sat': 'cbmc built-in SAT (minisat2)', 'kissat': 'kissat via cbmc --external-sat-solver', 'cvc5': 'cvc5 via cbmc --cvc5', 'z3': 'z3'}[g.solver]) + ((' | refuter: ' + g.refuter) if getattr(g, 'refuter', None) else ''),
             'solver_s': round(r.solver_s, 2), 'wall_s': round(r.wall_s, 2),
             'scope': g.scope, 'instances': r.n_instances, 'native_execution': r.native,
             'vacuity_covers': {'goals': r.cover_total, 'satisfied': r.cover_sat,
